@@ -581,8 +581,38 @@ def budget(tier):
     return 5000 if tier == "quick" else 150000
 
 
+# shrunk failing cases of earlier thorough campaigns (replay tier)
+REGRESSIONS = [
+    {"fl": "ssl3-rsa", "side": "s", "idx": 0, "m": ["ext", "add_known", 0,
+                                                    687]},
+    {"fl": "ssl3-rsa", "side": "s", "idx": 1, "m": ["setlen", 2289, 2,
+                                                    "zero"]},
+    {"fl": "ssl3-rsa", "side": "s", "idx": 9, "m": ["setlen", 9, 3, "zero"]},
+    {"fl": "tls13-hrr", "side": "s", "idx": 10, "m": ["setlen", 0, 2,
+                                                      "half"]},
+    {"fl": "tls13", "side": "s", "idx": 3, "m": ["flip", 1, 1]},
+    {"fl": "tls13", "side": "s", "idx": 3, "m": ["flip", 0, 255]},
+    {"fl": "tls13", "side": "s", "idx": 3, "m": ["setlen", 0, 1, "zero"]},
+    {"fl": "tls12-ecdhe-auth", "side": "c", "idx": 0,
+     "m": ["setlen", 3892, 1, "plus1"]},
+    {"fl": "tls13", "side": "s", "idx": 2, "m": ["flip", 2, 128],
+     "mem": True},
+    {"fl": "tls13-nocomp", "side": "s", "idx": 3, "m": ["flip", 1, 1]},
+    {"fl": "tls13", "side": "c", "idx": 0, "m": ["ext", "dup", 3, 3]},
+    {"fl": "tls13", "side": "s", "idx": 0, "m": ["ext", "empty", 0, 3]},
+    {"fl": "tls12-srp", "side": "c", "idx": 0, "m": ["ext", "only", 0, 3]},
+    {"fl": "tls12-anon-ecdh", "side": "s", "idx": 0,
+     "m": ["ext", "empty", 3, 3]},
+    {"fl": "tls13", "side": "c", "idx": 0, "m": ["ext", "empty", 4, 3]},
+    {"fl": "ssl3-rsa", "side": "c", "idx": 0, "m": ["ext", "empty", 5, 3]},
+    {"fl": "tls13-hrr", "side": "c", "idx": 1, "m": ["ext", "empty", 4, 3]},
+]
+
+
 def explicit(tier, seed):
     """Every message of every flavour x a fixed mutation set."""
+    for c in REGRESSIONS:
+        yield dict(c)
     fixed = [["empty"], ["zero"], ["trunc", 0], ["extend", 0],
              ["hugelen", 7], ["flip", 0, 0xff], ["setlen", 0, 2, "max"],
              ["setlen", 0, 1, "zero"], ["vec", 0, "empty", 0],
